@@ -130,9 +130,9 @@ Qed.
 
 (* check 9: once the final status has been written it is, and stays, the last line of the history file *)
 Theorem final_line_is_last : forall n s0 ls st,
-  exec (init n s0) ls = Some st -> 5 <= mrank (mp st) <= 10 -> last_line (file st) = Some (snap_of (sc st)).
+  exec (init n s0) ls = Some st -> 5 <= mrank (mp st) <= 11 -> last_line (file st) = Some (snap_of (sc st)).
 Proof.
   intros n s0 ls st He Hr.
-  pose proof (InvF_exec _ _ _ (InvF_init n s0) He) as (P4 & OW & CN & FC & LL & CR & CC & CF & OF).
+  pose proof (InvF_exec _ _ _ (InvF_init n s0) He) as (P4 & OW & CN & FC & LL & CR & CC & TW & CF & OF).
   apply LL. exact Hr.
 Qed.
